@@ -234,6 +234,12 @@ func verifyFunctionAliased(l *Loaded, specs *Specs, ct *Contract, localAlias map
 			}
 		}
 	}
+	if fn.Name() == "init" && fn.Pkg != nil {
+		// the runtime runs a package initializer once: its guard is clear on entry
+		if g, ok := fn.Pkg.Members["init$guard"].(*ssa.Global); ok {
+			w.sc.assume(not(w.hget(st, w.globalKey(g))))
+		}
+	}
 	fr.entry = st.clone()
 	w.topEntry = fr.entry
 	w.topFrame = fr
